@@ -49,6 +49,10 @@ type In struct {
 	Pattern string      `json:"pattern"`
 	Req     [][2]string `json:"req"` // request headers, in order
 	Ops     []Op        `json:"ops"`
+	// Gone (stream c17.pool only): before this exchange is served and judged, the same exchange is served once to a
+	// client whose connection takes *Gone body bytes and then fails (traffic that loses its client, concurrently
+	// with everything else; its own response is not judged)
+	Gone *int `json:"gone,omitempty"`
 }
 
 const maxHex = 512 // bodies up to this many bytes are shipped to the Lean side in hex
@@ -301,11 +305,11 @@ func validToken(s string) bool {
 
 func validValue(s string) bool {
 	for _, c := range []byte(s) {
-		if c < 0x20 || c >= 0x7f {
+		if (c < 0x20 && c != '\t') || c >= 0x7f {
 			return false
 		}
 	}
-	return len(s) == 0 || (s[0] != ' ' && s[len(s)-1] != ' ')
+	return len(s) == 0 || (s[0] != ' ' && s[len(s)-1] != ' ' && s[0] != '\t' && s[len(s)-1] != '\t')
 }
 
 func doSrv(in *In, path string, id string) Resp {
@@ -374,32 +378,9 @@ func runCase(in *In) (*Out, error) {
 // runCaseWith: wrap builds the handler under test around the scripted upstream handler (a new NewGzipHandler per
 // case, or one long-lived handler whose inner handler is swapped — stream c17.seq).
 func runCaseWith(in *In, re *regexp.Regexp, wrap func(inner http.Handler) http.Handler) (*Out, error) {
-	var chunks [][]byte
-	total := 0
-	for _, o := range in.Ops {
-		switch o.Op {
-		case "set", "add", "del":
-			if !validToken(o.K) || !validValue(o.V) {
-				return nil, fmt.Errorf("header op %q %q", o.K, o.V)
-			}
-		case "fl", "rc":
-		case "wh":
-			if !validCode(o.Code, in.Layer) {
-				return nil, fmt.Errorf("status %d", o.Code)
-			}
-		case "w":
-			b, err := chunkBytes(o)
-			if err != nil {
-				return nil, err
-			}
-			total += len(b)
-			if total > 16<<20 {
-				return nil, fmt.Errorf("body too large")
-			}
-			chunks = append(chunks, b)
-		default:
-			return nil, fmt.Errorf("op %q", o.Op)
-		}
+	chunks, err := prepare(in)
+	if err != nil {
+		return nil, err
 	}
 	var up bytes.Buffer
 	nw := 0
@@ -430,8 +411,45 @@ func runCaseWith(in *In, re *regexp.Regexp, wrap func(inner http.Handler) http.H
 		return nil, fmt.Errorf("transport: base=%q got=%q", out.Base.Err, out.Got.Err)
 	}
 	// a failure of the wrapped run only (truncated body, protocol error) is an observable: Got.Err is shipped
-	// oracle: sniffing and the regexp are Go library behaviour the model takes as parameters
-	out.Oracle.Up = blob(up.Bytes())
+	fillOracle(in, chunks, re, out, up.Bytes(), nw, canFlush)
+	return out, nil
+}
+
+// prepare validates the script and materialises its chunks.
+func prepare(in *In) ([][]byte, error) {
+	var chunks [][]byte
+	total := 0
+	for _, o := range in.Ops {
+		switch o.Op {
+		case "set", "add", "del":
+			if !validToken(o.K) || !validValue(o.V) {
+				return nil, fmt.Errorf("header op %q %q", o.K, o.V)
+			}
+		case "fl", "rc":
+		case "wh":
+			if !validCode(o.Code, in.Layer) {
+				return nil, fmt.Errorf("status %d", o.Code)
+			}
+		case "w":
+			b, err := chunkBytes(o)
+			if err != nil {
+				return nil, err
+			}
+			total += len(b)
+			if total > 16<<20 {
+				return nil, fmt.Errorf("body too large")
+			}
+			chunks = append(chunks, b)
+		default:
+			return nil, fmt.Errorf("op %q", o.Op)
+		}
+	}
+	return chunks, nil
+}
+
+// fillOracle: sniffing and the regexp are Go library behaviour the model takes as parameters
+func fillOracle(in *In, chunks [][]byte, re *regexp.Regexp, out *Out, up []byte, nw int, canFlush bool) {
+	out.Oracle.Up = blob(up)
 	out.Oracle.NW = nw
 	out.Oracle.CanFlush = canFlush
 	if len(chunks) > 0 {
@@ -456,5 +474,4 @@ func runCaseWith(in *In, re *regexp.Regexp, wrap func(inner http.Handler) http.H
 		}
 		out.Oracle.Match = append(out.Oracle.Match, [2]string{c, m})
 	}
-	return out, nil
 }
